@@ -4,6 +4,7 @@ go 1.24.2
 
 require (
 	example.com/scion-time v0.0.0
+	github.com/HdrHistogram/hdrhistogram-go v1.1.2
 	github.com/google/gopacket v1.1.19
 	github.com/miscreant/miscreant.go v0.0.0-20200214223636-26d376326b75
 	github.com/prometheus/client_golang v1.21.1
@@ -14,7 +15,6 @@ require (
 )
 
 require (
-	github.com/HdrHistogram/hdrhistogram-go v1.1.2 // indirect
 	github.com/beorn7/perks v1.0.1 // indirect
 	github.com/cespare/xxhash/v2 v2.3.0 // indirect
 	github.com/dchest/cmac v1.0.0 // indirect
